@@ -3,8 +3,12 @@
   (`Props/C12Doc.lean` has (a) paragraph text and (e) fence info string):
 
     (c) link title         `reference_in_title`        `md.parse("[x](/u \"" ++ R ++ "\")")`
+                           `reference_in_title_any`    … and the forms `'R'`, `(R)`
     (b) link destination   `reference_in_destination`  `md.parse("[x](</" ++ R ++ ">)")`
+                           `reference_in_bare_destination`            `"[x](/" ++ R ++ ")"`
     (d) reference definition `reference_in_definition` `md.parse("[k]: </" ++ R ++ "> \"" ++ R ++ "\"\n\n[k]")`
+        images             `reference_in_image`        `![x](/u "R")`, `![x](</R>)`
+    all five contexts      `contexts_agree`
 
   for EVERY `R` with `Entity.Denotes cfg.entity R X` (named reference of the table, numeric reference
   incl. the invalid codes that give U+FFFD, backslash escape of one of the 32 characters).  The trees are
@@ -13,16 +17,18 @@
         Root[Paragraph[Link{url: normalize_link("/" ++ X), title: Some(X)}[Text "k"]]]
   with the SAME `X` that `reference_in_paragraph` shows in paragraph text and `reference_in_fence_info`
   puts into the fence's class.  NO exception inside the class: the candidates `\"` / `&quot;` in a
-  `"`-quoted title, `\>` `\<` `&lt;` `&gt;` inside `<…>`, references that produce a blank, a line feed
-  or U+FFFD all agree (the scanners' own backslash case skips exactly the escaped character, and
-  decoding happens after scanning); each was run on the real crate (examples at the end).
-  `validate_link` never rejects: the decoded destination starts with `/` (`Link.C12X.validate_slash`).
+  `"`-quoted title, `\'`, `\(`, `\)` in the other title forms, `\>` `\<` `&lt;` `&gt;` inside `<…>`,
+  `\(` `\)` in a bare destination, references that produce a blank, a line feed or U+FFFD all agree
+  (the scanners' own backslash case skips exactly the escaped character, no reference contains a
+  character the scanners react to, and decoding happens after scanning); each was run on the real
+  crate (examples at the end).  `validate_link` never rejects: the decoded destination starts with
+  `/` (`Link.C12X.validate_slash`).
 
-  The symbolic runs are in `Lemmas/C12CtxInline.lean` (link rule: label loop with `skip_token`,
-  nested tokenizer, `afterLabel`), `Lemmas/C12CtxLink.lean` (the two `Link` scanners over a symbolic
-  `R`, `refParse` on the definition line), `Lemmas/C12CtxBlock.lean` / `C12CtxBlockDef.lean` (block
-  pass on a one-line source that starts with `[`, and on definition ⏎ ⏎ use).  The emphasis matcher
-  is never unfolded.
+  The symbolic runs are in `Lemmas/C12CtxInline.lean` (link / image rule: label loop with
+  `skip_token`, nested tokenizer, `afterLabel`), `Lemmas/C12CtxLink.lean` (the `Link` scanners over a
+  symbolic `R`, `refParse` on the definition line), `Lemmas/C12CtxBlock.lean` / `C12CtxBlockDef.lean`
+  (block pass on a one-line source that starts with `[`, and on definition ⏎ ⏎ use).  The emphasis
+  matcher is never unfolded.
 -/
 import MdIt.Props.C12Doc
 import MdIt.Lemmas.C12CtxInline
@@ -35,31 +41,40 @@ open MdIt.Entity (Denotes)
 
 /-! ## the shape of the tree -/
 
-/-- `t` is exactly `Root[Paragraph[Link{url, title}[Text lab]]]` — ranges and attributes (the
-    `data-sourcepos` of `SyntaxPosRule`) aside -/
-def IsLinkDoc (t : Node) (url : List Nat) (title : Option (List Char)) (lab : List Char) : Prop :=
+/-- `t` is exactly `Root[Paragraph[v[Text lab]]]` for an inline value `v` — ranges and attributes
+    (the `data-sourcepos` of `SyntaxPosRule`) aside -/
+def IsInlDoc (t : Node) (v : Inline.Val) (lab : List Char) : Prop :=
   ∃ rr ra pr pa lr la xr xa,
     t = ⟨.blk .root, rr, ra, [⟨.blk .paragraph, pr, pa,
-          [⟨.inl (.link url title), lr, la, [⟨.inl (.text lab), xr, xa, []⟩]⟩]⟩]⟩
+          [⟨.inl v, lr, la, [⟨.inl (.text lab), xr, xa, []⟩]⟩]⟩]⟩
 
-theorem IsLinkDoc.kindsPre {t : Node} {url : List Nat} {title : Option (List Char)} {lab : List Char}
-    (h : IsLinkDoc t url title lab) :
-    kindsPre t = [.blk .root, .blk .paragraph, .inl (.link url title), .inl (.text lab)] := by
+/-- `Root[Paragraph[Link{url, title}[Text lab]]]` -/
+abbrev IsLinkDoc (t : Node) (url : List Nat) (title : Option (List Char)) (lab : List Char) : Prop :=
+  IsInlDoc t (.link url title) lab
+
+/-- `Root[Paragraph[Image{url, title}[Text lab]]]` -/
+abbrev IsImageDoc (t : Node) (url : List Nat) (title : Option (List Char)) (lab : List Char) : Prop :=
+  IsInlDoc t (.image url title) lab
+
+theorem IsInlDoc.kindsPre {t : Node} {v : Inline.Val} {lab : List Char} (h : IsInlDoc t v lab) :
+    kindsPre t = [.blk .root, .blk .paragraph, .inl v, .inl (.text lab)] := by
   obtain ⟨rr, ra, pr, pa, lr, la, xr, xa, rfl⟩ := h
   simp [Pipeline.kindsPre, kindsPreList]
 
 /-- the passes behind the block pass (splice walk, `FragmentsJoin`, `SyntaxPosRule`) on
-    `Root[Paragraph[InlineRoot]]` when the inline parser makes `[Link[Text lab]]` of the content -/
-theorem afterBlocks_linkDoc (cfg : DocCfg) (src content : List Char) (mapping : List (Nat × Nat))
-    (refs : Refs.RefMap) (rr pr : Option (Nat × Nat)) (url : List Nat) (title : Option (List Char))
+    `Root[Paragraph[InlineRoot]]` when the inline parser makes `[v[Text lab]]` (`v` a `Link` or an
+    `Image`) of the content -/
+theorem afterBlocks_inlDoc (cfg : DocCfg) (src content : List Char) (mapping : List (Nat × Nat))
+    (refs : Refs.RefMap) (rr pr : Option (Nat × Nat)) (v : Inline.Val)
+    (hv : (∃ u ti, v = .link u ti) ∨ (∃ u ti, v = .image u ti))
     (lab : List Char) (r r' : Nat × Nat) (hlab : lab ≠ [])
     (hin : Inline.parseInline (cfg.inlineCfg refs) content mapping =
-      .ok [⟨.link url title, some r, [Inline.Node.newText lab (some r')]⟩]) :
+      .ok [⟨v, some r, [Inline.Node.newText lab (some r')]⟩]) :
     ∃ t, afterBlocks cfg src
         ⟨.root, rr, [⟨.paragraph, pr, [⟨.inlineRoot content mapping, none, []⟩]⟩]⟩ refs = .ok t ∧
-      IsLinkDoc t url title lab := by
+      IsInlDoc t v lab := by
   let x : Node := ⟨.inl (.text lab), some r', [], []⟩
-  let l : Node := ⟨.inl (.link url title), some r, [], [x]⟩
+  let l : Node := ⟨.inl v, some r, [], [x]⟩
   let p : Node := ⟨.blk .paragraph, pr, [], [l]⟩
   let t0 : Node := ⟨.blk .root, rr, [], [p]⟩
   have hsplice : spliceNode (cfg.inlineCfg refs)
@@ -73,7 +88,8 @@ theorem afterBlocks_linkDoc (cfg : DocCfg) (src content : List Char) (mapping : 
       simp [x, fragmentsJoin, pass1, Pipeline.markerToText, mergeAll, mergeLoop, keep, Node.isText,
         Node.content, hcont]
     have hl : fragmentsJoin [l] = [l] := by
-      simp [l, fragmentsJoin, pass1, Pipeline.markerToText, mergeAll, mergeLoop, keep, Node.isText]
+      rcases hv with ⟨u, ti, rfl⟩ | ⟨u, ti, rfl⟩ <;>
+        simp [l, fragmentsJoin, pass1, Pipeline.markerToText, mergeAll, mergeLoop, keep, Node.isText]
     have hp : fragmentsJoin [p] = [p] := by
       simp [p, fragmentsJoin, pass1, Pipeline.markerToText, mergeAll, mergeLoop, keep, Node.isText]
     have jx : joinNode x = x := joinNode_childless rfl
@@ -88,7 +104,7 @@ theorem afterBlocks_linkDoc (cfg : DocCfg) (src content : List Char) (mapping : 
     rw [joinNode_eq]
     show ({ t0 with children := joinList (fragmentsJoin [p]) } : Node) = t0
     rw [hp, joinList_eq_map]; simp [jp, t0]
-  have hshape : IsLinkDoc t0 url title lab := ⟨_, _, _, _, _, _, _, _, rfl⟩
+  have hshape : IsInlDoc t0 v lab := ⟨_, _, _, _, _, _, _, _, rfl⟩
   unfold afterBlocks
   simp only [hsplice, hjoin, ite_self]
   by_cases hsp : cfg.sourcepos = true
@@ -110,6 +126,12 @@ structure LinkCfg (cfg : DocCfg) : Prop where
   para : Block.RuleId.paragraph ∈ cfg.blockChain
   inl : Inline.C12X.LinkChain cfg.inlineChain
 
+/-- the same for images: the image rule in the inline chain, no emphasis-like rule on `!` -/
+structure ImageCfg (cfg : DocCfg) : Prop where
+  nest : 0 < cfg.maxNesting
+  para : Block.RuleId.paragraph ∈ cfg.blockChain
+  inl : Inline.C12X.ImageChain cfg.inlineChain
+
 theorem labelChar_x : Inline.C12X.LabelChar 'x' := ⟨by decide, by decide⟩
 theorem labelChar_k : Inline.C12X.LabelChar 'k' := ⟨by decide, by decide⟩
 
@@ -127,13 +149,77 @@ theorem parseDoc_inline_link (cfg : DocCfg) (hcfg : LinkCfg cfg) (c : Char) (T :
   have hblock := Block.C12X.parseBlocks_bracket_line cfg.blockCfg hcfg.para hcfg.nest (c :: ']' :: T) hnt hq
   obtain ⟨r, r', hin⟩ := Inline.C12X.parseInline_bracket (cfg := cfg.inlineCfg []) hcfg.inl hcfg.nest c T hlc
     hlast [(0, 0)] Inline.C12.wf_single href title
-    (fun skip fuel st1 h1 h2 => Inline.C12X.afterLabel_inline (cfg.inlineCfg []) skip fuel st1 c T href title
-      h1 h2 htail)
+    (fun skip fuel st1 h1 h2 => by
+      have := Inline.C12X.afterLabel_inline (cfg.inlineCfg []) skip fuel st1 [] c T href title h1 h2 htail
+      simpa [InlineOps.byteLen] using this)
   unfold parseDoc
   rw [hblock]
-  exact afterBlocks_linkDoc cfg _ _ _ [] _ _ _ _ [c] r r' (by simp) hin
+  exact afterBlocks_inlDoc cfg _ _ _ [] _ _ _ (.inl ⟨_, _, rfl⟩) [c] r r' (by simp) hin
+
+/-- the same with `!` in front: `Root[Paragraph[Image{href, title}[Text c]]]` -/
+theorem parseDoc_inline_image (cfg : DocCfg) (hcfg : ImageCfg cfg) (c : Char) (T : List Char)
+    (hlc : Inline.C12X.LabelChar c) (hnt : Lines.NoTerm ('!' :: '[' :: c :: ']' :: T))
+    (hlast : ∀ x ∈ ('!' :: '[' :: c :: ']' :: T).getLast?, Inline.isSpTab x = false)
+    (href : Option (List Nat)) (title : Option (List Char))
+    (htail : Link.parseInlineTail (Entity.unescapeAll cfg.entity) (['!', '[', c, ']'] ++ T)
+      (Link.byteLen ['!', '[', c, ']']) (Link.byteLen (['!', '[', c, ']'] ++ T)) =
+        .ok (some ⟨href, title, Link.byteLen (['!', '[', c, ']'] ++ T)⟩)) :
+    ∃ t, parseDoc cfg ('!' :: '[' :: c :: ']' :: T) = .ok t ∧ IsImageDoc t (href.getD []) title [c] := by
+  have hplain : Block.C12.Plain [] ('!' :: '[' :: c :: ']' :: T) :=
+    ⟨(by intro c hc; cases hc), (by decide), hnt,
+      ⟨'!', '[' :: c :: ']' :: T, rfl, (by decide), fun _ => ⟨(by decide), (by decide)⟩⟩,
+      (by simp [Block.skipOrdered, Block.isDigit])⟩
+  have hblock := Block.C12.parseBlocks_one_line cfg.blockCfg hcfg.para hcfg.nest [] _ hplain
+  have hb : InlineOps.byteLen ['!'] = 1 := by decide
+  obtain ⟨r, r', hin⟩ := Inline.C12X.parseInline_image (cfg := cfg.inlineCfg []) hcfg.inl hcfg.nest c T hlc
+    hlast [(0, 0)] Inline.C12.wf_single href title
+    (fun skip fuel st1 h1 h2 => by
+      have := Inline.C12X.afterLabel_inline (cfg.inlineCfg []) skip fuel st1 ['!'] c T href title h1 h2 htail
+      rw [hb] at this
+      simpa using this)
+  unfold parseDoc
+  rw [show '!' :: '[' :: c :: ']' :: T = [] ++ '!' :: '[' :: c :: ']' :: T from rfl, hblock]
+  exact afterBlocks_inlDoc cfg _ _ _ [] _ _ _ (.inr ⟨_, _, rfl⟩) [c] r r' (by simp) hin
+
+/-! ## templates: no line terminator, no blank at the end -/
+
+theorem noTerm_mid {lookup : List Char → Option (List Char)} {R X : List Char} (h : Denotes lookup R X)
+    (A B : List Char) (hA : Lines.NoTerm A) (hB : Lines.NoTerm B) : Lines.NoTerm (A ++ (R ++ B)) := by
+  intro c hc
+  rcases List.mem_append.mp hc with h1 | h1
+  · exact hA c h1
+  · rcases List.mem_append.mp h1 with h2 | h2
+    · exact h.noTerm c h2
+    · exact hB c h2
+
+theorem last_paren (L : List Char) : ∀ x ∈ (L ++ [')']).getLast?, Inline.isSpTab x = false := by
+  intro x hx
+  rw [List.getLast?_append] at hx
+  simp at hx; subst hx; decide
 
 /-! ## (c) the link title -/
+
+/-- **C12 (c), whole document, the three title forms `"…"`, `'…'`, `(…)`.**  For every valid
+    reference or escape `R` denoting `X` (the table holding no name that starts `&#`) and each
+    delimiter pair `(o, m)`: `md.parse("[x](/u " ++ o ++ R ++ m ++ ")")` does not panic and is
+    `Root[Paragraph[Link { url: "/u", title: Some(X) }[Text "x"]]]` — the title is the characters `R`
+    denotes in paragraph text.  No exception: the escapes of the delimiters themselves (`\"`, `\'`,
+    `\(`, `\)`) and the references that decode to them give the delimiter character as title. -/
+theorem reference_in_title_any (cfg : DocCfg) (hcfg : LinkCfg cfg) (R X : List Char)
+    (h : Denotes cfg.entity R X) (hno : ∀ s, cfg.entity ('&' :: '#' :: s) = none) (o m : Char)
+    (hom : (o = '"' ∧ m = '"') ∨ (o = '\'' ∧ m = '\'') ∨ (o = '(' ∧ m = ')')) :
+    ∃ t, parseDoc cfg ('[' :: 'x' :: ']' :: '(' :: '/' :: 'u' :: ' ' :: o :: (R ++ [m, ')'])) = .ok t ∧
+      IsLinkDoc t [47, 117] (some X) ['x'] := by
+  have hnt : Lines.NoTerm ('[' :: 'x' :: ']' :: '(' :: '/' :: 'u' :: ' ' :: o :: (R ++ [m, ')'])) :=
+    noTerm_mid h ['[', 'x', ']', '(', '/', 'u', ' ', o] [m, ')']
+      (by rcases hom with ⟨rfl, _⟩ | ⟨rfl, _⟩ | ⟨rfl, _⟩ <;> (unfold Lines.NoTerm; decide))
+      (by rcases hom with ⟨_, rfl⟩ | ⟨_, rfl⟩ | ⟨_, rfl⟩ <;> (unfold Lines.NoTerm; decide))
+  have hlast : ∀ x ∈ ('[' :: 'x' :: ']' :: '(' :: '/' :: 'u' :: ' ' :: o :: (R ++ [m, ')'])).getLast?,
+      Inline.isSpTab x = false := by
+    have := last_paren ('[' :: 'x' :: ']' :: '(' :: '/' :: 'u' :: ' ' :: o :: (R ++ [m]))
+    simpa using this
+  exact parseDoc_inline_link cfg hcfg 'x' _ labelChar_x hnt (by simp [Block.refQuick]) hlast
+    (some [47, 117]) (some X) (Link.C12X.parseInlineTail_title_any h hno o m hom ['[', 'x', ']'])
 
 /-- **C12 (c), whole document.**  For every valid reference or escape `R` denoting `X` (the table
     holding no name that starts `&#`): `md.parse("[x](/u \"" ++ R ++ "\")")` does not panic and is
@@ -143,23 +229,8 @@ theorem parseDoc_inline_link (cfg : DocCfg) (hcfg : LinkCfg cfg) (c : Char) (T :
 theorem reference_in_title (cfg : DocCfg) (hcfg : LinkCfg cfg) (R X : List Char)
     (h : Denotes cfg.entity R X) (hno : ∀ s, cfg.entity ('&' :: '#' :: s) = none) :
     ∃ t, parseDoc cfg ('[' :: 'x' :: ']' :: '(' :: '/' :: 'u' :: ' ' :: '"' :: (R ++ ['"', ')'])) = .ok t ∧
-      IsLinkDoc t [47, 117] (some X) ['x'] := by
-  have hnt : Lines.NoTerm ('[' :: 'x' :: ']' :: '(' :: '/' :: 'u' :: ' ' :: '"' :: (R ++ ['"', ')'])) := by
-    intro c hc
-    simp only [List.mem_cons, List.mem_append, List.not_mem_nil, or_false] at hc
-    rcases hc with rfl | rfl | rfl | rfl | rfl | rfl | rfl | rfl | hc | rfl | rfl
-    all_goals first
-      | exact h.noTerm c hc
-      | exact ⟨by decide, by decide⟩
-  have hlast : ∀ x ∈ ('[' :: 'x' :: ']' :: '(' :: '/' :: 'u' :: ' ' :: '"' :: (R ++ ['"', ')'])).getLast?,
-      Inline.isSpTab x = false := by
-    intro x hx
-    rw [show '[' :: 'x' :: ']' :: '(' :: '/' :: 'u' :: ' ' :: '"' :: (R ++ ['"', ')']) =
-      ('[' :: 'x' :: ']' :: '(' :: '/' :: 'u' :: ' ' :: '"' :: (R ++ ['"'])) ++ [')'] by simp,
-      List.getLast?_append] at hx
-    simp at hx; subst hx; decide
-  exact parseDoc_inline_link cfg hcfg 'x' _ labelChar_x hnt (by simp [Block.refQuick]) hlast
-    (some [47, 117]) (some X) (Link.C12X.parseInlineTail_title h hno ['[', 'x', ']'])
+      IsLinkDoc t [47, 117] (some X) ['x'] :=
+  reference_in_title_any cfg hcfg R X h hno '"' '"' (.inl ⟨rfl, rfl⟩)
 
 /-! ## (b) the link destination -/
 
@@ -173,23 +244,68 @@ theorem reference_in_destination (cfg : DocCfg) (hcfg : LinkCfg cfg) (R X : List
     (h : Denotes cfg.entity R X) (hno : ∀ s, cfg.entity ('&' :: '#' :: s) = none) :
     ∃ t, parseDoc cfg ('[' :: 'x' :: ']' :: '(' :: '<' :: '/' :: (R ++ ['>', ')'])) = .ok t ∧
       IsLinkDoc t (Link.normalizeLink (Link.utf8 ('/' :: X))) none ['x'] := by
-  have hnt : Lines.NoTerm ('[' :: 'x' :: ']' :: '(' :: '<' :: '/' :: (R ++ ['>', ')'])) := by
-    intro c hc
-    simp only [List.mem_cons, List.mem_append, List.not_mem_nil, or_false] at hc
-    rcases hc with rfl | rfl | rfl | rfl | rfl | rfl | hc | rfl | rfl
-    all_goals first
-      | exact h.noTerm c hc
-      | exact ⟨by decide, by decide⟩
+  have hnt : Lines.NoTerm ('[' :: 'x' :: ']' :: '(' :: '<' :: '/' :: (R ++ ['>', ')'])) :=
+    noTerm_mid h ['[', 'x', ']', '(', '<', '/'] ['>', ')'] (by unfold Lines.NoTerm; decide)
+      (by unfold Lines.NoTerm; decide)
   have hlast : ∀ x ∈ ('[' :: 'x' :: ']' :: '(' :: '<' :: '/' :: (R ++ ['>', ')'])).getLast?,
       Inline.isSpTab x = false := by
-    intro x hx
-    rw [show '[' :: 'x' :: ']' :: '(' :: '<' :: '/' :: (R ++ ['>', ')']) =
-      ('[' :: 'x' :: ']' :: '(' :: '<' :: '/' :: (R ++ ['>'])) ++ [')'] by simp,
-      List.getLast?_append] at hx
-    simp at hx; subst hx; decide
+    have := last_paren ('[' :: 'x' :: ']' :: '(' :: '<' :: '/' :: (R ++ ['>']))
+    simpa using this
   exact parseDoc_inline_link cfg hcfg 'x' _ labelChar_x hnt (by simp [Block.refQuick]) hlast
     (some (Link.normalizeLink (Link.utf8 ('/' :: X)))) none
     (Link.C12X.parseInlineTail_dest h hno ['[', 'x', ']'])
+
+/-- **C12 (b), the bare form.**  `md.parse("[x](/" ++ R ++ ")")` is the same tree: the bare
+    destination scanner runs over `R` as a unit (`\(`, `\)` do not change its parenthesis count, no
+    reference contains a blank, a control character or a parenthesis). -/
+theorem reference_in_bare_destination (cfg : DocCfg) (hcfg : LinkCfg cfg) (R X : List Char)
+    (h : Denotes cfg.entity R X) (hno : ∀ s, cfg.entity ('&' :: '#' :: s) = none) :
+    ∃ t, parseDoc cfg ('[' :: 'x' :: ']' :: '(' :: '/' :: (R ++ [')'])) = .ok t ∧
+      IsLinkDoc t (Link.normalizeLink (Link.utf8 ('/' :: X))) none ['x'] := by
+  have hnt : Lines.NoTerm ('[' :: 'x' :: ']' :: '(' :: '/' :: (R ++ [')'])) :=
+    noTerm_mid h ['[', 'x', ']', '(', '/'] [')'] (by unfold Lines.NoTerm; decide)
+      (by unfold Lines.NoTerm; decide)
+  have hlast : ∀ x ∈ ('[' :: 'x' :: ']' :: '(' :: '/' :: (R ++ [')'])).getLast?,
+      Inline.isSpTab x = false := by
+    have := last_paren ('[' :: 'x' :: ']' :: '(' :: '/' :: R)
+    simpa using this
+  exact parseDoc_inline_link cfg hcfg 'x' _ labelChar_x hnt (by simp [Block.refQuick]) hlast
+    (some (Link.normalizeLink (Link.utf8 ('/' :: X)))) none
+    (Link.C12X.parseInlineTail_bare h hno ['[', 'x', ']'])
+
+/-! ## the same two contexts of an image -/
+
+/-- **C12 (b) + (c) for images.**  `md.parse("![x](/u \"" ++ R ++ "\")")` is
+    `Root[Paragraph[Image { url: "/u", title: Some(X) }[Text "x"]]]` and
+    `md.parse("![x](</" ++ R ++ ">)")` is
+    `Root[Paragraph[Image { url: normalize_link("/" ++ X), title: None }[Text "x"]]]`
+    (`LinkPrefixScanner<'!', true>` runs the same `parse_link`, one byte further right). -/
+theorem reference_in_image (cfg : DocCfg) (hcfg : ImageCfg cfg) (R X : List Char)
+    (h : Denotes cfg.entity R X) (hno : ∀ s, cfg.entity ('&' :: '#' :: s) = none) :
+    (∃ t, parseDoc cfg ('!' :: '[' :: 'x' :: ']' :: '(' :: '/' :: 'u' :: ' ' :: '"' :: (R ++ ['"', ')'])) = .ok t ∧
+      IsImageDoc t [47, 117] (some X) ['x']) ∧
+    (∃ t, parseDoc cfg ('!' :: '[' :: 'x' :: ']' :: '(' :: '<' :: '/' :: (R ++ ['>', ')'])) = .ok t ∧
+      IsImageDoc t (Link.normalizeLink (Link.utf8 ('/' :: X))) none ['x']) := by
+  constructor
+  · have hnt : Lines.NoTerm ('!' :: '[' :: 'x' :: ']' :: '(' :: '/' :: 'u' :: ' ' :: '"' :: (R ++ ['"', ')'])) :=
+      noTerm_mid h ['!', '[', 'x', ']', '(', '/', 'u', ' ', '"'] ['"', ')'] (by unfold Lines.NoTerm; decide)
+        (by unfold Lines.NoTerm; decide)
+    have hlast : ∀ x ∈ ('!' :: '[' :: 'x' :: ']' :: '(' :: '/' :: 'u' :: ' ' :: '"' :: (R ++ ['"', ')'])).getLast?,
+        Inline.isSpTab x = false := by
+      have := last_paren ('!' :: '[' :: 'x' :: ']' :: '(' :: '/' :: 'u' :: ' ' :: '"' :: (R ++ ['"']))
+      simpa using this
+    exact parseDoc_inline_image cfg hcfg 'x' _ labelChar_x hnt hlast (some [47, 117]) (some X)
+      (Link.C12X.parseInlineTail_title h hno ['!', '[', 'x', ']'])
+  · have hnt : Lines.NoTerm ('!' :: '[' :: 'x' :: ']' :: '(' :: '<' :: '/' :: (R ++ ['>', ')'])) :=
+      noTerm_mid h ['!', '[', 'x', ']', '(', '<', '/'] ['>', ')'] (by unfold Lines.NoTerm; decide)
+        (by unfold Lines.NoTerm; decide)
+    have hlast : ∀ x ∈ ('!' :: '[' :: 'x' :: ']' :: '(' :: '<' :: '/' :: (R ++ ['>', ')'])).getLast?,
+        Inline.isSpTab x = false := by
+      have := last_paren ('!' :: '[' :: 'x' :: ']' :: '(' :: '<' :: '/' :: (R ++ ['>']))
+      simpa using this
+    exact parseDoc_inline_image cfg hcfg 'x' _ labelChar_x hnt hlast
+      (some (Link.normalizeLink (Link.utf8 ('/' :: X)))) none
+      (Link.C12X.parseInlineTail_dest h hno ['!', '[', 'x', ']'])
 
 /-! ## (d) the reference definition -/
 
@@ -251,7 +367,7 @@ theorem reference_in_definition (cfg : DocCfg) (hcfg : DefCfg cfg) (R X : List C
   rw [hsrc]
   unfold parseDoc
   rw [hblock]
-  exact afterBlocks_linkDoc cfg _ _ _ _ _ _ _ _ ['k'] r r' (by simp) hin
+  exact afterBlocks_inlDoc cfg _ _ _ _ _ _ _ (.inl ⟨_, _, rfl⟩) ['k'] r r' (by simp) hin
 
 /-! ## all five contexts together -/
 
@@ -317,6 +433,12 @@ theorem exCfg_def (sp : Bool) (mn : Nat) (h : 0 < mn) : DefCfg (exCfg sp mn) := 
   · rw [hL, hU]; decide
   · rw [hL, hU]; decide
 
+theorem exCfg_image (sp : Bool) (mn : Nat) (h : 0 < mn) : ImageCfg (exCfg sp mn) := by
+  refine ⟨h, by simp [exCfg], ⟨by simp [exCfg], by simp [exCfg], ?_⟩⟩
+  intro mk csw hm
+  simp [exCfg] at hm
+  rcases hm with ⟨rfl, _⟩ | ⟨rfl, _⟩ | ⟨rfl, _⟩ <;> decide
+
 /-- the key conditions of `DefCfg` hold for the case tables of the linked Rust std -/
 theorem realTables_key :
     (Refs.normalize Refs.Lt Refs.Ut [107]).isEmpty = false ∧
@@ -373,6 +495,36 @@ example : (parseDoc (exCfg false 100) "[x](</\\>\\<&#62;&#60;>)".toList).toOptio
     some [("/%3E%3C%3E%3C".toList.map Char.toNat, none)] := by decide +kernel
 example : (parseDoc (exCfg false 100) "[x](</&#32;&#10;>)".toList).toOption.map linksOf =
     some [("/%20%0A".toList.map Char.toNat, none)] := by decide +kernel
+
+/-- the other forms: `'…'` and `(…)` titles with the escapes of their own delimiters, the bare
+    destination with `\(` `\)` (no effect on the parenthesis count) and a reference to a blank.
+    (Real crate: titles `'`, `)`, `(`; hrefs `/()`, `/%20`.) -/
+example : (parseDoc (exCfg false 100) "[x](/u '\'&#39;')".toList).toOption.map linksOf =
+    some [("/u".toList.map Char.toNat, some "''".toList)] := by decide +kernel
+example : (parseDoc (exCfg false 100) "[x](/u (\)\(&#40;))".toList).toOption.map linksOf =
+    some [("/u".toList.map Char.toNat, some ")((".toList)] := by decide +kernel
+example : (parseDoc (exCfg false 100) "[x](/\(\)&#32;)".toList).toOption.map linksOf =
+    some [("/()%20".toList.map Char.toNat, none)] := by decide +kernel
+
+/-- through the theorems: the `(…)` title with `R = \)`, the bare destination with `R = \(` -/
+example (sp : Bool) : ∃ t, parseDoc (exCfg sp 100) "[x](/u (\)))".toList = .ok t ∧
+    IsLinkDoc t [47, 117] (some [')']) ['x'] :=
+  reference_in_title_any _ (exCfg_link sp 100 (by decide)) _ _ (.escape ')' (by decide))
+    (exCfg_no_hash sp 100) '(' ')' (.inr (.inr ⟨rfl, rfl⟩))
+example (sp : Bool) : ∃ t, parseDoc (exCfg sp 100) "[x](/\()".toList = .ok t ∧
+    linksOf t = [("/(".toList.map Char.toNat, none)] := by
+  obtain ⟨t, h1, h2⟩ := reference_in_bare_destination _ (exCfg_link sp 100 (by decide)) _ _
+    (.escape '(' (by decide)) (exCfg_no_hash sp 100)
+  exact ⟨t, h1, by rw [h2.links.1]; decide +kernel⟩
+
+/-- images: through the theorem on `&amp;`, and by evaluation -/
+example (sp : Bool) : ∃ t, parseDoc (exCfg sp 100) "![x](/u \"&amp;\")".toList = .ok t ∧
+    IsImageDoc t [47, 117] (some ['&']) ['x'] :=
+  (reference_in_image _ (exCfg_image sp 100 (by decide)) _ _
+    (.named "amp".toList ['&'] (by decide) (by cases sp <;> decide)) (exCfg_no_hash sp 100)).1
+example : (parseDoc (exCfg true 100) "![x](</\\>&#65;>)".toList).toOption.map (fun t => (tags t, kindsPre t)) =
+    some ([.root, .p, .I, .T], [.blk .root, .blk .paragraph,
+      .inl (.image ("/%3EA".toList.map Char.toNat) none), .inl (.text ['x'])]) := by decide +kernel
 
 /-- OUTSIDE the class (a name the table does not hold, a missing `;`): literal in title and
     destination — as in paragraph text and the info string (`Props/C12Doc.lean`) -/
